@@ -477,6 +477,25 @@ def check_percolation(ctx):
         okinit = init is not None and norm_text(init).replace(' ', '') in ("float('inf')", 'np.inf', 'math.inf', 'float("inf")')
         ctx.ob('R5', fi, n, True if (ok and okinit) else (False if t in ('cost>best_cost', 'best_cost<cost', 'cost>=best_cost') else None),
                'cheapest path over all peaks kept (strict improvement from +inf)' if (ok and okinit) else 'the comparison does not keep the cheapest path')
+    if not cmps:
+        # selection by min()/sorted() over the collected candidates: the key must be the total cost of the path
+        sel = [n for n in ast.walk(body) if isinstance(n, ast.Call) and isinstance(n.func, ast.Name) and n.func.id in ('min', 'sorted')
+               and any(k.arg == 'key' for k in n.keywords)]
+        for n in sel:
+            key = next(k.value for k in n.keywords if k.arg == 'key')
+            kt = norm_text(key.body if isinstance(key, ast.Lambda) else key).replace(' ', '').replace('"', "'")
+            arg = key.args.args[0].arg if (isinstance(key, ast.Lambda) and key.args.args) else None
+            total = (arg is not None and kt in (f'{arg}.total_energy', f'sum({arg}.energy)', f'np.sum({arg}.energy)')) or \
+                kt in ("attrgetter('total_energy')", "operator.attrgetter('total_energy')")
+            steps = (arg is not None and kt in (f'{arg}.energy', f'list({arg}.energy)', f'tuple({arg}.energy)')) or \
+                kt in ("attrgetter('energy')", "operator.attrgetter('energy')")
+            if not (total or steps):
+                continue  # a selection through a helper or another form: no verdict from this clause (other forms are not read here)
+            ctx.ob('R5', fi, n, True if total else False,
+                   'cheapest path over all peaks selected by total energy' if total else
+                   ('the candidates are ordered by their per-step energy list (lexicographic), not by the total energy: the path '
+                    'from the deepest peak wins even when another peak has the cheaper percolating path' if steps else
+                    f'selection key `{kt}` not recognised as the total energy of the path'))
     # every peak is examined: the loop over the peaks has no early exit
     for lp in ast.walk(body):
         if isinstance(lp, ast.For) and norm_text(lp.iter) == 'peaks':
